@@ -341,10 +341,10 @@ class Unit:
 
         if unit[-1] == 'L':
             prefix_value = Unit.convert_prefix_to_multiplier(unit[:-1])
-            result = value * Unit.convert_prefix_to_multiplier(config.volume_storage_unit[0]) / prefix_value
+            result = value * Unit.convert_prefix_to_multiplier(config.volume_storage_unit[:-1]) / prefix_value
         elif unit[-3:] == 'mol':  # moles
             prefix_value = Unit.convert_prefix_to_multiplier(unit[:-3])
-            result = value * Unit.convert_prefix_to_multiplier(config.moles_storage_unit[0]) / prefix_value
+            result = value * Unit.convert_prefix_to_multiplier(config.moles_storage_unit[:-3]) / prefix_value
         else:
             raise ValueError("Invalid unit.")
         return round(result, config.internal_precision)
